@@ -151,7 +151,7 @@ func specGraph(s *core.Spec) (g graph, extra map[string]bool) {
 	extra = map[string]bool{}
 	for name, n := range s.Nodes {
 		g.nodes[name] = 1
-		if n.Branches == nil {
+		if n == nil || n.Branches == nil {
 			continue
 		}
 		for _, b := range n.Branches.Branches {
@@ -528,8 +528,8 @@ func rename(a *ref.ASpec, mapping map[string]string) *ref.ASpec {
 
 func Run(cfg fw.Config, rec *fw.Rec) {
 	log.SetOutput(io.Discard)
-	rec.Rule = "generated specs (native and source actions, guards, missing / @variable / empty targets, orphans, terminal nodes, empty and absent branch lists, self-loops, parallel branches to one target; with and without the automatic error node) in two strata judged separately: identifier-like node names, and hostile names (spaces, quotes, ->, <, >, &, %, newlines, unicode, keywords; also pairs of names that differ only in a character and its escaped spelling, such as a\"b and a#quot;b); tools.Analyze is compared with a reference graph analysis, tools.Dot output is tokenised as DOT (ids, quoted strings, nestable HTML strings, attribute lists, ->) and tools.Mermaid output as a flowchart, and node / edge multisets are compared with the spec graph; a third of the specs are also rendered with five (from, to) transitions to highlight (existing nodes, start, empty, unknown names), which must not change the node and edge multisets; tools.RenderSpecPage must return without error with one table row per node and per branch; non-trivial = spec with >= 2 nodes and >= 1 branch; distinct by spec"
-	rec.Required = []string{"plain_analysis_ok", "plain_dot_ok", "plain_mermaid_ok", "plain_html_ok", "lookalike_names_kept_apart", "rendered_with_a_transition_to_highlight", "native_action_rendered", "missing_target_rendered", "variable_target_rendered", "parallel_branches", "self_loop"}
+	rec.Rule = "generated specs (native and source actions, guards, missing / @variable / empty targets, orphans, terminal nodes, empty and absent branch lists, self-loops, parallel branches to one target; with and without the automatic error node) in two strata judged separately: identifier-like node names, and hostile names (spaces, quotes, ->, <, >, &, %, newlines, unicode, keywords; also pairs of names that differ only in a character and its escaped spelling, such as a\"b and a#quot;b); tools.Analyze is compared with a reference graph analysis, tools.Dot output is tokenised as DOT (ids, quoted strings, nestable HTML strings, attribute lists, ->) and tools.Mermaid output as a flowchart, and node / edge multisets are compared with the spec graph; a third of the specs are also rendered with five (from, to) transitions to highlight (existing nodes, start, empty, unknown names), which must not change the node and edge multisets; a fifth of the specs are also analysed and rendered before they are compiled, with their body-less nodes nil as a document loader leaves them; tools.RenderSpecPage must return without error with one table row per node and per branch; non-trivial = spec with >= 2 nodes and >= 1 branch; distinct by spec"
+	rec.Required = []string{"plain_analysis_ok", "plain_dot_ok", "plain_mermaid_ok", "plain_html_ok", "lookalike_names_kept_apart", "rendered_with_a_transition_to_highlight", "uncompiled_specs_with_bodyless_nodes_rendered", "native_action_rendered", "missing_target_rendered", "variable_target_rendered", "parallel_branches", "self_loop"}
 	rec.Assume = []string{"DOT and Mermaid subsets as emitted by the tools (the tokenizers accept what Graphviz / Mermaid accept for these constructs)", "the hostile-name stratum is judged separately so a finding there cannot mask the plain stratum"}
 	n := cfg.Pick(6000, 1000000)
 	fw.Parallel(cfg.Workers, n, func(w, i int) {
@@ -709,6 +709,62 @@ func Run(cfg fw.Config, rec *fw.Rec) {
 					break
 				}
 				rec.Bucket("rendered_with_a_transition_to_highlight")
+			}
+		}
+		// the same specification before it is compiled (spectool renders what it is given),
+		// with its body-less nodes as a document loader leaves them: nil
+		if i%5 == 1 && ok {
+			raw := a.Core(native, ref.NativeNilErr)
+			nils := 0
+			for nm, n := range raw.Nodes {
+				if n != nil && n.Action == nil && n.ActionSource == nil && n.Branches == nil {
+					raw.Nodes[nm] = nil
+					nils++
+				}
+			}
+			wantRaw, extraRaw := specGraph(raw)
+			var rb, rm closer
+			var rhb bytes.Buffer
+			var e1, e2, e3, e4 error
+			if rec.Guard("C20:"+stratum+":uncompiled", replay, func() {
+				_, e1 = tools.Analyze(raw)
+				e2 = tools.Dot(raw, &rb, "", "")
+				e3 = tools.Mermaid(raw, &rm, nil, "", "")
+				e4 = tools.RenderSpecPage(raw, &rhb, nil, false)
+			}) {
+				ok = false
+			} else {
+				rec.Eval(4)
+				why := ""
+				for _, e := range []error{e1, e2, e3, e4} {
+					if e != nil && why == "" {
+						why = "error: " + e.Error()
+					}
+				}
+				if why == "" {
+					if got, perr := parseDot(rb.String()); perr != nil {
+						why = "dot: " + perr.Error()
+					} else {
+						why = compareGraph(wantRaw, extraRaw, got, "dot")
+					}
+				}
+				if why == "" {
+					if got, perr := parseMermaid(rm.String()); perr != nil {
+						why = "mermaid: " + perr.Error()
+					} else {
+						w, ex := readAs(wantRaw, extraRaw, mermaidReading)
+						why = compareGraph(w, ex, got, "mermaid")
+					}
+				}
+				if why != "" {
+					rec.Violation("C20:"+stratum+":uncompiled-spec-rendered-wrongly", "rendering the specification before it is compiled: "+why, replay)
+					ok = false
+				} else {
+					rec.Bucket("uncompiled_specs_rendered")
+					if nils > 0 {
+						rec.Bucket("uncompiled_specs_with_bodyless_nodes_rendered")
+					}
+				}
 			}
 		}
 		// the HTML page (tools.RenderSpecPage): total, one table row per node, one per branch
